@@ -10,6 +10,13 @@ HERE = os.path.dirname(os.path.dirname(os.path.abspath(__file__)))
 
 def main():
     rows = json.load(open(os.path.join(HERE, "sensitivity_last.json")))
+    import sys
+
+    sys.path.insert(0, HERE)
+    import mutants_table
+
+    current = {(m["prop"], m["name"]) for m in mutants_table.MUTANTS}
+    rows = [r for r in rows if (r["prop"], r["name"]) in current]  # rows of mutants since replaced are dropped
     out = ["# Sensitivity of the checks", "",
            "Two independent sources of breakage: (1) hand-written mutants (`mutants_table.py`, applied one at a time to a scratch copy "
            "of the repository by `./vcheck selftest mutants`), (2) seeded changes written by sub-agents that saw only the property text "
